@@ -124,6 +124,20 @@ fn demo(which: &str) -> i32 {
             }
         }
         // D7 (C08): the typed conversion must reject a message whose functions use an undefined variable id
+        "O1" => {
+            // observation (precondition `fn_coo_ok` of the operator / term-iterator contracts): a Quadratic whose COO arrays differ in length makes the operators panic
+            use v1::function::Function as F;
+            let mut q = v1::Quadratic::default(); q.rows = vec![1, 2]; q.columns = vec![1]; q.values = vec![1.0];
+            let f = bounded::f_of(F::Quadratic(q));
+            let g = bounded::f_of(F::Linear(bounded::lin(&[(1, 1.0)], 0.0)));
+            let r1 = std::panic::catch_unwind(|| f.clone() * g.clone()).is_err();
+            let r2 = std::panic::catch_unwind(|| f.clone() + f.clone()).is_err();
+            let r3 = std::panic::catch_unwind(|| (&f).into_iter().count()).is_err();
+            let i = bounded::inst(vec![bounded::dv(1, Kind::Continuous, None), bounded::dv(2, Kind::Continuous, None)], g.clone(), vec![bounded::con(1, Equality::EqualToZero, f.clone())]);
+            let r4 = std::panic::catch_unwind(move || i.penalty_method().is_ok()).is_err();
+            println!("O1 observation: malformed COO quadratic: f*g panics={r1}, f+f panics={r2}, term iterator panics={r3}, penalty_method panics={r4}");
+            if r1 && r2 && r3 && r4 { 0 } else { 1 }
+        }
         "D7" => {
             let i = inst(vec![dv(0, Kind::Continuous, Some((0.0, 1.0)))], Function::from(Linear::single_term(5, 1.0)), vec![]);
             let raw_ok = i.validate().is_ok();
@@ -177,6 +191,6 @@ fn main() {
             }
         }
     }
-    println!("usage: rx bounded <Cxx> | rx demo <D1|D2|D3|D7|D13|D13u|D5a|D5b|D5c|D5d|D6>");
+    println!("usage: rx bounded <Cxx> | rx demo <D1|D2|D3|D7|D13|D13u|D5a|D5b|D5c|D5d|D6|O1>");
     std::process::exit(2);
 }
